@@ -551,3 +551,55 @@ func VerifC02Generic() {
 }
 
 func VerifC02MultiChoice() { c01MultiChoice(true) }
+
+type c02In struct{ X int }
+type c02Out struct{ V int }
+
+// a struct-typed workflow node whose only data predecessor is skipped by a branch while a control-only predecessor
+// fires: it runs once on the zero value of its input type (Invoke and Stream)
+func VerifC02ZeroStruct() {
+	ctx := context.Background()
+	vcfg("fifo", 1)
+	vcfg("selectfirst", 1)
+	pickB := vchoose("pick", 2) == 0
+	x := vsymInt("x")
+	runs := 0
+	var got c02In
+	wf := NewWorkflow[int, int]()
+	wf.AddLambdaNode("a", InvokableLambda(func(ctx context.Context, in int) (int, error) { return in, nil })).AddInput(START)
+	wf.AddLambdaNode("b", InvokableLambda(func(ctx context.Context, in int) (c02Out, error) { return c02Out{V: in + 1}, nil })).AddInput("a")
+	wf.AddLambdaNode("c", InvokableLambda(func(ctx context.Context, in int) (int, error) { return in, nil })).AddInput("a")
+	wf.AddBranch("a", NewGraphBranch(func(ctx context.Context, in int) (string, error) {
+		if pickB {
+			return "b", nil
+		}
+		return "c", nil
+	}, map[string]bool{"b": true, "c": true}))
+	wf.AddLambdaNode("n", InvokableLambda(func(ctx context.Context, in c02In) (int, error) {
+		runs++
+		got = in
+		return in.X, nil
+	})).AddInput("b", MapFields("V", "X")).AddDependency("c")
+	wf.End().AddInput("n")
+	r, err := wf.Compile(ctx)
+	vassert(err == nil, "workflow compiles")
+	var out int
+	var rerr error
+	if vchoose("stream", 2) == 1 {
+		sr, e := r.Stream(ctx, x)
+		rerr = e
+		if e == nil {
+			out, rerr = sr.Recv()
+			sr.Close()
+		}
+	} else {
+		out, rerr = r.Invoke(ctx, x)
+	}
+	vassert(rerr == nil, "the run succeeds whichever target the branch picks")
+	vassert(runs == 1, "n runs exactly once: one of its control predecessors routed to it, the other was skipped")
+	if pickB {
+		vassert(got.X == x+1 && out == x+1, "n receives the mapped output of the data predecessor that ran")
+	} else {
+		vassert(got.X == 0 && out == 0, "n receives the zero value of its input type when its only data predecessor was skipped")
+	}
+}
